@@ -87,6 +87,10 @@ CHECKS.update({
             "Bounded solver-checked: for ~95 (all 676 thorough) ordered token pairs of a 26-symbol alphabet any Unicode whitespace (or none, where an operator/bracket is adjacent) before / between / after yields the canonical token list, and 12 formulas with symbolic whitespace at their boundaries parse identically; back-tick names of <=2 (3) arbitrary code points and brace/call fragments of <=2 (3) code points are single verbatim tokens; every one-character name over a 101-character menu denotes its own factor; token spans of every string of <=2 (3) code points are in range, ordered, non-overlapping and delimit the token text; 10 Python fragments x reformattings denote one factor.",
             "Whitespace runs of length <=1 per site; known findings: columns named '.' and '1' cannot be referenced.",
             "DESIGN.md §3 C15"),
+    "C17": ("CH", "CrossHair 0.0.110 (z3): membership of names in the data / context layers as SYMBOLIC booleans through the real FormulaMaterializer.__init__/_lookup/_evaluate; '.' expansion via symbolic indices (CH-enum); necessity/sufficiency of required_variables by native enumeration over a formula menu (labelled: no solver share)",
+            "Bounded: for every membership pattern of three names (one shadowing the built-in 'log') in data and context, lookups and factor evaluation return the value and source of the first of data > context > transforms, NameError otherwise, without writing to the supplied mappings; '.' expands to available - used-on-lhs in data order for 8 variable lists x 6 left-hand sides x intercept x 3 surroundings; 15 formulas (plain, quoted, nested calls, attribute access, Python expressions, multi-part): data restricted to required_variables materializes, removing any one raises FactorEvaluationError, and reported sources / required variables after materialization are where values came from.",
+            "The necessity/sufficiency leg is enumeration of concrete formulas, not solver-decided.",
+            "DESIGN.md §3 C17"),
 })
 
 NOT_APPLICABLE = {
